@@ -301,6 +301,15 @@ pub mod cases {
             S ::= SEQUENCE { f INTEGER (0..10 ^ 0..10 ^ 0..10 | 1000), g INTEGER (0..10 ^ 0..10 | 1000), h INTEGER (0..10 ^ 0..10 ^ 0..10) }
             END"],
             checks: &[ItemHas("pubstructS{", "pubf:u16"), ItemHas("pubstructS{", "pubg:u16"), ItemHas("pubstructS{", "pubh:u8")] },
+        // ---- C04 / C06 (fix 25): the type included by `(B)` may be a reference to an INTEGER type: its negative values are permitted
+        Case { ob: "C04.cases.inclusion_of_a_referenced_integer_type_keeps_its_negative_values", srcs: &["M DEFINITIONS AUTOMATIC TAGS ::= BEGIN
+            C ::= INTEGER
+            B ::= C (MIN..10)
+            N ::= INTEGER (-5..5)
+            max-v INTEGER ::= 5
+            S ::= SEQUENCE { a INTEGER (B), n INTEGER (N), z INTEGER (0..max-v) }
+            END"],
+            checks: &[ItemHas("pubstructS{", "#[rasn(value(\"..=10\"))]puba:Integer"), ItemHas("pubstructS{", "#[rasn(value(\"-5..=5\"))]pubn:i8"), ItemHas("pubstructS{", "#[rasn(value(\"0..=5\"))]pubz:u8")] },
         // ---- C14 / C13: an empty comment `----` ends at its own closing `--`
         Case { ob: "C14.cases.empty_comment_does_not_hide_the_items_after_it", srcs: &["M DEFINITIONS AUTOMATIC TAGS ::= BEGIN
             T ::= ENUMERATED { a, ---- b(5),\n c, ..., d }
